@@ -273,9 +273,12 @@ def nested_builder(ctx, R, q="signac._utility:_dotted_dict_to_nested_dicts"):
             d = common.reaching_def(ctx, fi, n.args[0].id, n)
             if d is not None and any(isinstance(x, ast.Call) and q in common.targets_of(ctx, fi, x) for x in ast.walk(d)):
                 rec_store.append(n)
+    shallow = [n for n in body_nodes(fi) if isinstance(n, ast.Call) and isinstance(n.func, ast.Attribute) and n.func.attr == "update" and n.args
+               and not (isinstance(n.args[0], ast.Dict) and all(not isinstance(v, (ast.Dict, ast.Name)) for v in n.args[0].values))]
+    rec_store = rec_store or shallow
     k = q + "|merge"
     if rec_store:
-        out.append(ctx.viol(R, fi, rec_store[0], f"`{stmt_key(rec_store[0], 50)}` stores a recursively built sub-mapping wholesale: two dotted keys that share a prefix of two or more levels "
+        out.append(ctx.viol(R, fi, rec_store[0], f"`{stmt_key(rec_store[0], 50)}` stores / merges a pre-built sub-mapping shallowly: two dotted keys that share a prefix of two or more levels "
                             "('c.x.a', 'c.x.b') overwrite each other, so nested state points lose keys", construct=k))
     elif desc:
         out.append(ctx.ok(R, fi, desc[0], "sub-mappings are created with setdefault and extended in place: keys sharing a prefix are merged", construct=k))
@@ -297,4 +300,103 @@ def nested_builder(ctx, R, q="signac._utility:_dotted_dict_to_nested_dicts"):
                             "common part no longer reconstructs the state point", construct=k2))
     else:
         out.append(ctx.ok(R, fi, fi.node, "every (key, value) pair is stored, whatever the value", construct=k2))
+    return out
+
+
+def single_consumption(ctx, R, table):
+    """A parameter that may be a one-shot iterable (generator, map/filter object) is consumed at most once before it is materialised:
+    a validation loop added in front of the real use exhausts it, and the real use then sees an empty selection."""
+    out = []
+    CONSUMERS = ("all", "any", "list", "set", "tuple", "sorted", "sum", "max", "min", "frozenset", "dict", "enumerate", "iter", "next", "zip", "map", "filter")
+    for (q, p, why) in table:
+        fi = ctx.prog.funcs.get(q)
+        if fi is None:
+            out.append(ctx.inc(R, None, None, f"function {q} not found", construct=f"{q}|once:{p}"))
+            continue
+        uses = []
+        rebound = None
+        for n in body_nodes(fi):
+            if isinstance(n, (ast.For, ast.comprehension)) and isinstance(n.iter, ast.Name) and n.iter.id == p:
+                uses.append(n)
+            elif isinstance(n, ast.Call):
+                nm = n.func.id if isinstance(n.func, ast.Name) else (n.func.attr if isinstance(n.func, ast.Attribute) else "")
+                direct = [a for a in list(n.args) + [k.value for k in n.keywords] if isinstance(a, ast.Name) and a.id == p]
+                if direct:
+                    uses.append(n)
+            elif isinstance(n, ast.Assign) and any(isinstance(t, ast.Name) and t.id == p for t in n.targets):
+                rebound = n
+        # a re-binding that materialises the parameter (p = list(p) / {..for x in p}) makes later uses safe
+        cfg = ctx.cfg(fi)
+        k = f"{q}|once:{p}"
+        if len(uses) <= 1:
+            out.append(ctx.ok(R, fi, fi.node, f"`{p}` is consumed once", construct=k, nontrivial=bool(uses)))
+            continue
+        # order the uses; count those that can execute before the materialising re-binding (or all, if there is none)
+        def before_rebind(u):
+            if rebound is None:
+                return True
+            try:
+                uid = ctx.node_ids(fi, u)
+                rid = ctx.node_ids(fi, rebound)
+            except Exception:
+                return True
+            if set(uid) & set(rid):
+                return True  # the re-binding statement itself consumes it (that is the materialisation)
+            return any(r in cfg.reachable([x], kinds="n") for x in uid for r in rid)
+        early = [u for u in uses if before_rebind(u)]
+        if len(early) >= 2:
+            out.append(ctx.viol(R, fi, early[0], f"`{p}` is consumed {len(early)} times before being materialised (first at line {getattr(early[0], 'lineno', '?')}): {why}", construct=k))
+        else:
+            out.append(ctx.ok(R, fi, fi.node, f"`{p}` is materialised by its first use; later uses see the materialised value", construct=k))
+    return out
+
+
+_LIST_MUTATORS = ("append", "extend", "insert", "remove", "pop", "clear", "sort", "reverse", "update", "add", "discard", "setdefault", "popitem")
+
+
+def param_not_mutated(ctx, R, table):
+    """A container received as an argument belongs to the caller: it is modified in place only after the name has been re-bound to a
+    fresh object on every path (reaching definitions at each mutation site).  table: (function, parameter, why)."""
+    from . import common
+    out = []
+    for q, par, why in table:
+        fi = ctx.prog.funcs.get(q)
+        k = f"{q}|caller-owned:{par}"
+        if fi is None or par not in fi.params:
+            out.append(ctx.inc(R, fi, None, f"{q} has no parameter {par}", construct=k))
+            continue
+        muts = []
+        for n in body_nodes(fi):
+            if isinstance(n, ast.Call) and isinstance(n.func, ast.Attribute) and isinstance(n.func.value, ast.Name) and n.func.value.id == par and n.func.attr in _LIST_MUTATORS:
+                muts.append(n)
+            elif isinstance(n, ast.AugAssign) and isinstance(n.target, ast.Name) and n.target.id == par:
+                muts.append(n)
+            elif isinstance(n, (ast.Assign, ast.AugAssign, ast.Delete)):
+                tg = n.targets if isinstance(n, (ast.Assign, ast.Delete)) else [n.target]
+                if any(isinstance(t, ast.Subscript) and isinstance(t.value, ast.Name) and t.value.id == par for t in tg):
+                    muts.append(n)
+        bad = None
+        for m in muts:
+            for d in common.reaching_defs(ctx, fi, par, m):
+                fresh = False
+                if d == "<param>":
+                    bad = bad or (m, "the caller's object")
+                    continue
+                if d == "<other>":
+                    continue
+                if isinstance(d, (ast.List, ast.ListComp, ast.Dict, ast.DictComp, ast.Set, ast.SetComp, ast.Tuple, ast.Constant, ast.BinOp)):
+                    fresh = True
+                elif isinstance(d, ast.Call) and isinstance(d.func, ast.Name) and d.func.id in ("list", "dict", "set", "sorted", "tuple"):
+                    fresh = True
+                elif isinstance(d, ast.Call) and isinstance(d.func, ast.Attribute) and d.func.attr in ("copy", "deepcopy"):
+                    fresh = True
+                elif isinstance(d, ast.Subscript) and isinstance(d.slice, ast.Slice):
+                    fresh = True
+                if not fresh and par in {x.id for x in ast.walk(d) if isinstance(x, ast.Name)} and isinstance(d, (ast.Name, ast.IfExp, ast.BoolOp)):
+                    bad = bad or (m, f"`{canon(d)[:40]}`, which can be the caller's object")
+        if bad:
+            m, what = bad
+            out.append(ctx.viol(R, fi, m, f"`{stmt_key(m, 50)}` modifies `{par}` in place while it can still be {what}: {why}", construct=k))
+        else:
+            out.append(ctx.ok(R, fi, fi.node, f"`{par}` is modified in place at {len(muts)} site(s), each reached only by a fresh copy", construct=k, nontrivial=bool(muts)))
     return out
